@@ -47,7 +47,7 @@ func anchorFuncs(spec *propSpec, p *Prog) ([]*FuncInfo, []string) {
 	c := newCtx(spec.id, "mutate-scan", p)
 	func() {
 		defer func() { _ = recover() }()
-		spec.run(c)
+		spec.runAll(c)
 	}()
 	ids := map[string]bool{}
 	for id := range p.touched {
@@ -548,7 +548,7 @@ func runMutantWorker(inPath, outPath, prop, repo string) int {
 				p = loadProg(repo, "", map[string][]byte{abs: []byte(mutated)})
 			}
 			c := newCtx(prop, "mutant", p)
-			spec.run(c)
+			spec.runAll(c)
 			base := map[string]bool{}
 			for _, k := range w.Base {
 				base[k] = true
